@@ -2,17 +2,29 @@
 
 Tie
   * translator harness/translate/c04_op4consts.py -> lean/PyYetiVerif/Generated/Op4Consts.lean
-    (the literals of OP4.__init__, the ASCII/binary headers and the `<< 16` / `>> 16` of the
-    nonbigmat string header; theorems are proved about these regenerated constants);
-  * exact correspondence between lean/PyYetiVerif/Model/Op4.lean (run through Drivers/C04.lean) and
-    pyyeti.nastran.op4 on the same logical inputs:
-      colstats  OP4._sparse_col_stats                      == Model.colStats
-      enc       bytes written by op4.write(binary=True)    == Model.encFileBytes   (or struct_error)
-      dec       op4.load(into='list', sparse=F/T/None)     == Model.rdFile on those bytes
-      dir       op4.dir                                    == Model.dirWords
-      asc       text written by op4.write(binary=False)    == Model.encFileAscii
-      fmt       '%{numlen}.{digits}E' % x (CPython)        == Model.fmtE
-  * model-free oracle (search / replay): read(write(x)) == x on the public API only.
+    (the literals of OP4.__init__, the ASCII/binary headers, the `<< 16` / `>> 16` of the nonbigmat string
+    header, the ASCII reader's default format and title-line field widths; the column-header slices of the
+    four ASCII readers are asserted to be the literals of the Lean model);
+  * exact correspondence between the Lean models (run through Drivers/C04.lean) and pyyeti.nastran.op4:
+      colstats  OP4._sparse_col_stats                      == Op4.colStats
+      enc       bytes written by op4.write(binary=True)    == Op4.encFileBytes   (or struct_error)
+      dec-d     op4.load(into='list', sparse=False)        == Op4.decodeBytes    (the function of file_roundtrip_bytes)
+      dec-s/a   op4.load(..., sparse=True/None)            == Op4.rdFile + cooOfPuts / sparseAuto
+      dir       op4.dir                                    == Op4.dirWords
+      asc       text written by op4.write(binary=False)    == Op4.encFileAscii
+      fmt       '%{numlen}.{digits}E' % x (CPython)        == Op4.fmtE
+      aread     op4.load (3 modes) + op4.dir on the ASCII text pyYeti wrote (digits 1..16, 17, 20, 30, 73, default)
+                                                           == Op4A.loadAscii / dirAscii  (Model/Op4Ascii.lean)
+      avar      the same on ASCII variant files from the format-only encoder Op4V.encAFile (D/E exponents, any
+                perline/width, with/without 1P, lower case, single precision, arbitrary partitions into strings,
+                3-digit exponents, under/overflow of float())
+      amut      the same on mutated texts (cut at a line, no final newline, empty line, lower case, format
+                field removed -> defaults 5/16, blanks after the title line): what the reader rejects
+      afld/aint float(field) / int(field) (CPython)        == Op4A.pyFloat? (+ PyFloat.toBits) / Op4A.pyInt?
+      avals     OP4._put_ascii_values_sparse[_c]           == Op4A.readVals (fields + pyFloat?)
+      ablk      OP4._get_ascii_block                       == Op4A.getBlock
+  * model-free oracle (search / replay): read(write(x)) == x on the public API only; and, for ASCII variant
+    files, read(text) == the logical content the text was generated from (independent Python encoder).
 """
 import json
 import os
@@ -35,18 +47,27 @@ TieBroken = getattr(_main, "TieBroken", _runner.TieBroken)
 Infra = getattr(_main, "Infra", _runner.Infra)
 
 ID = "C04"
-LEAN_MODULES = ["PyYetiVerif.Props.C04", "PyYetiVerif.Audit.C04"]
+LEAN_MODULES = ["PyYetiVerif.Props.C04", "PyYetiVerif.Audit.C04", "PyYetiVerif.Model.PyFloat",
+                "PyYetiVerif.Model.Op4Variants"]  # (the last two: imported by Drivers/C04.lean)
 AUDIT_FILE = "PyYetiVerif/Audit/C04.lean"
 THEOREMS = [
     "PyYetiVerif.C04." + n
     for n in (
-        "colStats_spec colStats_maximal nwords_consumed unpack_pack pack_fits_i32 column_roundtrip_nonbigmat column_roundtrip_bigmat column_roundtrip_dense name_roundtrip nonbigmat_writes_iff file_writes_iff file_roundtrip_binary decCol_spec nonbigmat_overflow_example double_words_roundtrip bytes_roundtrip fmtE_width ascii_overflow_example"
+        "colStats_spec colStats_maximal nwords_consumed unpack_pack pack_fits_i32 column_roundtrip_nonbigmat "
+        "column_roundtrip_bigmat column_roundtrip_dense name_roundtrip nonbigmat_writes_iff file_writes_iff "
+        "file_roundtrip_binary decCol_spec nonbigmat_overflow_example double_words_roundtrip bytes_roundtrip "
+        "fmtE_width ascii_overflow_example file_roundtrip_bytes empty_file_refused value_lines ascii_slicing "
+        "fits_iff_width ascii_column_roundtrip_dense ascii_column_roundtrip_bigmat ascii_column_roundtrip_nonbigmat "
+        "string_lines header_roundtrip_ascii file_roundtrip_ascii decOf_zero ascii_entry_spec sci_mantissa_digits "
+        "ascii_value_half_unit field_roundtrip"
     ).split()
 ]
 TRUSTED = [
     "correspondence harness harness/props/c04.py (exact: bytes, text, decoded bit patterns)",
     "translator harness/translate/c04_op4consts.py (constants of op4.py -> Generated/Op4Consts.lean)",
-    "CPython struct.pack/unpack, '%E' formatting and float() are modelled (fmtE) and correspondence-checked, not verified",
+    "CPython struct.pack/unpack, '%E' formatting, int() and float() are modelled (fmtE, pyInt?, pyFloat? + the "
+    "correctly rounded PyFloat.toBits in the driver) and correspondence-checked, not verified",
+    "CPython text-mode readline / itertools.islice are modelled by cutting the text at '\\n' (linesOf)",
     "numpy/scipy.sparse containers (nonzero, lexsort, find, coo_matrix) are modelled by list functions",
     "matrix names are ASCII; doubles are finite (the property's quantifier)",
 ]
@@ -55,37 +76,58 @@ RULE = (
     "sparsity styles dense/random/runs/all-zero/empty rows and columns, values from small integers, normals, "
     "arbitrary finite bit patterns, subnormals, 3-digit exponents, -0.0) x byte order x sparse option x digits x "
     "names (valid 1..8 characters, mixed case, invalid, too long) x forms (automatic or explicit); plus two "
-    "16383/16384-row single-string columns; each file is compared as bytes/text and decoded in the three read modes "
-    "and by dir; non-trivial = some matrix has a column with at least two strings or the write raises; distinct by "
-    "the whole logical input"
+    "16383/16384-row single-string columns and a sweep over digits 1..16, 17, 20, 30, 73 and the default x the four "
+    "sparse options; each file is compared as bytes/text, decoded in the three read modes and by dir, and the ASCII "
+    "text is read by the Lean ASCII reader; ASCII reader only: variant files (any perline/width, D or E exponents, "
+    "1P or not, lower case, single/double, arbitrary string partitions, 3-digit exponents of both signs, values that "
+    "under/overflow), mutated texts (what the reader rejects), single fields for float()/int(), blocks for the put "
+    "functions and _get_ascii_block; non-trivial = some matrix has a column with at least two strings or the write "
+    "raises (files) / every case (reader-only streams); distinct by the whole logical input"
 )
 ASSUMPTIONS = [
     "values are finite doubles; names are ASCII; digits between 1 and 73 (perline >= 1)",
-    "matrices have fewer than 2^28 rows (record lengths fit 32 bits)",
-    "the ASCII reader is not modelled in Lean (the ASCII round trip is checked by the oracle on the real code only)",
+    "binary: matrices have fewer than 2^28 rows (word level) / 2^27 rows (byte level: record lengths are 32-bit words)",
+    "ASCII theorems: 6*rows < 10^8, columns + 1 < 10^8, form < 10^8 (every integer fits its 8-character field), "
+    "valid names of at most 8 characters, at least one matrix per file, every written value fits its field "
+    "(not negative with a 3-digit exponent: finding F3)",
+    "ASCII reader model: no carriage returns, no underscores / inf / nan in numbers, announced perline and numlen "
+    ">= 1, no negative row / column / length fields (the model answers `reject`; the harness never produces them)",
 ]
 PARTIAL = (
-    "binary: proved for whole files at the level of the 32-bit word stream (file_roundtrip_binary) with "
-    "bytes_roundtrip / name_roundtrip carrying words and names to bytes separately (not composed into one "
-    "byte-level statement; the sparse=True COO view and sparse=None choice are model definitions checked by "
-    "correspondence, not theorems); ASCII: fmtE_width only - ascii_slicing / file_roundtrip_ascii are not proved "
-    "(no Lean model of the ASCII reader): the ASCII round trip is established by the oracle on the real code"
+    "binary and ASCII: the sparse=True COO view (cooOfPuts) and what sparse=None resolves to (sparseAuto) are model "
+    "definitions checked by correspondence, not theorems - the file theorems are about the dense read; "
+    "ASCII: the theorems end at the exact decimal a field denotes (read-back decimal = printed decimal, "
+    "|printed - x| <= half a unit of the last digit); the last step float(decimal) -> nearest double is CPython's "
+    "(modelled in the driver by PyFloat.toBits and correspondence-checked bit for bit), so 'bit-identical for "
+    "digits >= 16' is established by the oracle, not proved; dir on ASCII files (_skipop4_ascii) is modelled and "
+    "correspondence-checked (dirAscii) without a theorem; files with carriage returns are outside the reader model"
 )
 MANIFEST = {
-    "level_text": "Proof (Lean 4, kernel-checked, standard axioms) about an exact word/byte-level model of the OUTPUT4 "
-    "binary writer and reader and a bit-exact model of CPython's %E: for every list of matrices, layout and byte order "
-    "the reader decodes the written word stream to the written names, sizes, forms, types and columns "
-    "(file_roundtrip_binary; -0.0 outside written strings reads as +0.0) exactly when the writer succeeds, which is iff "
-    "every nonbigmat string satisfies L+1 < 32768 (pack_fits_i32, finding F2); _sparse_col_stats yields exactly the "
-    "maximal runs and the word count the reader consumes to zero; the formatted ASCII field has the announced width "
-    "iff not (x<0 and |exp10|>=100) (finding F3). The model is tied to op4.py by a constants translator and by exact "
-    "byte/text/decode correspondence.",
-    "level_note": "The ASCII reader is not modelled (ASCII round trip: model-free oracle only); byte-level and word-level "
-    "statements are separate theorems (see PARTIAL). Trusted: Lean "
-    "kernel; propext, Classical.choice, Quot.sound; the Python harness; CPython struct/float formatting; numpy/scipy "
-    "containers.",
-    "technique": "Lean 4 proof (induction over strings/columns, omega on the packed header, bounded search for %E) + "
-    "source->Lean constants translator + exact differential correspondence of bytes, text and decoded values",
+    "level_text": "Proof (Lean 4, kernel-checked, standard axioms) about exact models of the OUTPUT4 binary writer/reader "
+    "(bytes), the ASCII writer (text, with a bit-exact model of CPython's %E) and the ASCII reader (lines, int(), "
+    "float() as exact decimals). Binary: for every non-empty list of matrices, layout and byte order, decodeBytes of "
+    "the written bytes is the written names (lower-cased), shapes, forms, types and columns (file_roundtrip_bytes = "
+    "file_roundtrip_binary + bytes_roundtrip + name_roundtrip + format detection; -0.0 outside written strings reads "
+    "as +0.0) exactly when the writer succeeds, which is iff every nonbigmat string satisfies L+1 < 32768 "
+    "(pack_fits_i32, finding F2). ASCII: for every non-empty list of matrices and digits 1..73, loadAscii of the written "
+    "text returns per matrix the name field, rows, columns, form, type and announced format, and every non-zero "
+    "element reads back as exactly the printed decimal (file_roundtrip_ascii, ascii_entry_spec), which is within half a "
+    "unit of the last printed digit of the double (ascii_value_half_unit; the printed mantissa has exactly digits+1 "
+    "digits, sci_mantissa_digits) - under the hypothesis that every value fits its field, which holds iff not (x<0 and "
+    "|exp10|>=100) (fmtE_width, fits_iff_width; finding F3). ascii_slicing: for every width, perline and count the "
+    "reader's slices of the value lines are the written fields; ascii_column_roundtrip_{dense,bigmat,nonbigmat} for "
+    "every partition into strings; _sparse_col_stats yields exactly the maximal runs and the word count the readers "
+    "consume to zero.",
+    "level_note": "Tied, not proved: the models are tied to op4.py by the constants translator and by exact "
+    "correspondence of bytes, text, decoded values, listings, single fields and blocks (pyYeti's own ASCII files for "
+    "digits 1..16/17/20/30/73/default and all layouts, variant files, mutated texts). The sparse=True / sparse=None "
+    "views, dir on ASCII files and the final float(decimal) rounding are model definitions / driver code checked by "
+    "correspondence only (see PARTIAL). Trusted: Lean kernel; propext, Classical.choice, Quot.sound; the Python "
+    "harness; CPython struct/int/float/%E and text-mode line reading; numpy/scipy containers.",
+    "technique": "Lean 4 proof (induction over lines/strings/columns/matrices, omega on the packed header, bisection "
+    "invariant for the %E exponent, rational arithmetic for the half-unit bound, relational transport of the binary "
+    "put lemmas to the ASCII reader) + source->Lean constants translator + exact differential correspondence of "
+    "bytes, text, decoded values, fields and blocks",
 }
 
 KNOWN_F2 = "op4-binary-nonbigmat-string-ge-16384-rows"
@@ -388,8 +430,9 @@ def _write(op4, path, case, inputs, binary):
     with warnings.catch_warnings():
         warnings.simplefilter("ignore")
         forms = case["forms"]
-        op4.write(path, list(case["names"]), list(inputs), binary=binary, digits=case["digits"],
-                  endian=case["endian"], sparse=case["opt"], forms=None if all(f is None for f in forms) else list(forms))
+        kw = {} if case.get("default_digits") else {"digits": case["digits"]}
+        op4.write(path, list(case["names"]), list(inputs), binary=binary,
+                  endian=case["endian"], sparse=case["opt"], forms=None if all(f is None for f in forms) else list(forms), **kw)
 
 
 def _canon_loaded(names, mats, forms, mtypes):
@@ -479,6 +522,230 @@ def _multi_string(case):
     return False
 
 
+
+# ---------------------------------------------------------------------------------------------
+# ASCII reader: inputs for the Lean reader model (Model/Op4Ascii.lean)
+
+
+def _digit_sweep_cases(rng):
+    """every digits value 1..16 (plus 17, 20, 30, 73 and the default), the three layouts (and 'auto'), real and
+    complex, ndarray and scipy-sparse: 3-digit exponents of both signs, subnormals, -0.0, an empty column, an
+    all-zero matrix, names of length 1..8"""
+    pos3 = [2.5e120, 2.5e-120, 1.7976931348623157e308, 5e-324, 1e-310, 9.9999999999999999e99, 1e100, 9.99999999999e-101]
+    out = []
+    k = 0
+    for digits in list(range(1, 17)) + [17, 20, 30, 73, None]:
+        for opt in ("dense", "bigmat", "nonbigmat", "auto"):
+            k += 1
+            cplx = (k % 3 == 0)
+            rows, cols = 7, 4
+            D = np.zeros((rows, cols), complex if cplx else float)
+            vals = pos3 + [-1.5, -9.5e-99, -9.99e99, 0.1, 2.0 ** 0.5, 123456789.123456789]
+            rng.shuffle(vals)
+            D[0, 0], D[1, 0], D[2, 0], D[5, 0], D[6, 0] = vals[0], vals[1], vals[2], vals[3], vals[4]
+            D[1:4, 1] = vals[5:8]
+            D[rows - 1, 3] = vals[8]
+            if cplx:
+                D[1, 0] = complex(vals[1], vals[9])
+                D[5, 0] = complex(0.0, vals[10])
+                if k % 4 != 1:
+                    D[2, 1] = complex(vals[6], -0.0)  # (an ndarray input: scipy-sparse inputs are generated without -0.0)
+            kind = "sparse" if k % 4 == 1 else "ndarray"
+            if kind == "ndarray":
+                D[4, 0] = -0.0  # stays inside the dense record of column 0, dropped by the sparse layouts
+            Z = np.zeros((3, 2), complex if (k % 5 == 0) else float)
+            name = "abcdefgh"[: 1 + (k % 8)]
+            out.append({"mats": [{"kind": kind, "cplx": cplx, "D": D},
+                                 {"kind": "ndarray", "cplx": bool(k % 5 == 0), "D": Z}],
+                        "names": [name, "Z_%d" % (k % 10)], "forms": [None, 2], "opt": opt, "endian": "<",
+                        "digits": 16 if digits is None else digits, "default_digits": digits is None})
+    return out
+
+
+def _gen_adec(rng, maxdig):
+    """(neg, exp, digits) of one printed value of a variant file"""
+    t = rng.random()
+    if t < 0.08:
+        return (rng.randint(0, 1), 0, [0] * rng.randint(1, maxdig))
+    nd = rng.randint(1, maxdig)
+    digits = [rng.randint(1, 9)] + [rng.randint(0, 9) for _ in range(nd - 1)]
+    if t < 0.3:
+        exp = rng.choice([-1, 1]) * rng.randint(100, 330)      # 3-digit exponents, under- and overflow of float()
+    else:
+        exp = rng.randint(-40, 40)
+    return (1 if rng.random() < 0.5 else 0, exp, digits)
+
+
+def _gen_vmat(rng, single, maxdig):
+    cplx = rng.random() < 0.35
+    mult = 2 if cplx else 1
+    lay = rng.choice("dbn")
+    rows = rng.choice([1, 2, 3, 5, 8, 12])
+    ncols = rng.choice([0, 1, 2, 3, 5])
+    neg = (lay == "b") or (lay == "d" and rng.random() < 0.15)
+    cols = []
+    for c in range(ncols):
+        if rng.random() < 0.25:
+            continue  # column absent from the file
+        strs = []
+        if lay == "d":
+            r0 = rng.randrange(rows)
+            L = rng.randint(1, rows - r0)
+            strs.append((r0, [_gen_adec(rng, maxdig) for _ in range(L * mult)]))
+        else:
+            r = rng.randint(0, 2)
+            while r < rows:
+                L = rng.randint(1, min(4, rows - r))
+                strs.append((r, [_gen_adec(rng, maxdig) for _ in range(L * mult)]))
+                r += L + rng.choice([0, 0, 1, 2, 3])  # adjacent strings happen
+            if not strs:
+                continue
+        cols.append((c, strs))
+    n = rng.randint(1, 8)
+    name = rng.choice(VALID_FIRST) + "".join(rng.choice(VALID_REST) for _ in range(n - 1))
+    if rng.random() < 0.6:
+        name = name.upper()
+    return {"name": name, "form": rng.choice([1, 2, 6, 8]), "cplx": cplx, "rows": rows, "ncols": ncols, "lay": lay,
+            "neg": neg, "cols": cols}
+
+
+def _gen_vcase(rng):
+    width = rng.choice([12, 14, 16, 16, 20, 23, 24, 26, 40])
+    perline = rng.randint(1, min(6, 80 // width))
+    if rng.random() < 0.12:
+        width, perline = 16, 5  # the reader's default format
+    single = rng.random() < 0.4
+    maxdig = min(width - 8, 20)
+    return {"perline": perline, "width": width, "useD": rng.random() < 0.4, "lead1P": rng.random() < 0.6,
+            "fmtD": rng.random() < 0.3, "lower": rng.random() < 0.25, "single": single,
+            "mats": [_gen_vmat(rng, single, maxdig) for _ in range(rng.choice([1, 1, 2, 3]))]}
+
+
+def _vcase_tokens(case):
+    t = ["enca", str(case["perline"]), str(case["width"])] + ["1" if case[k] else "0" for k in ("useD", "lead1P", "fmtD", "lower")]
+    t.append(str(len(case["mats"])))
+    for m in case["mats"]:
+        t += [m["name"].encode().hex(), str(m["form"]), "1" if m["cplx"] else "0", "1" if case["single"] else "0",
+              str(m["rows"]), str(m["ncols"]), m["lay"], "1" if m["neg"] else "0", str(len(m["cols"]))]
+        for c, strs in m["cols"]:
+            t += [str(c), str(len(strs))]
+            for r0, vals in strs:
+                t += [str(r0), str(len(vals))]
+                for neg, exp, digits in vals:
+                    t += [str(neg), str(exp), str(len(digits))] + [str(d) for d in digits]
+    return " ".join(t)
+
+
+def _vcase_expected(case):
+    """the logical content of a variant file, computed from the case alone (model-free): per matrix
+    (lower-case name, rows, ncols, form, mtype, dense array)"""
+    out = []
+    for m in case["mats"]:
+        mult = 2 if m["cplx"] else 1
+        X = np.zeros((m["rows"], m["ncols"]), complex if m["cplx"] else float)
+        for c, strs in m["cols"]:
+            for r0, vals in strs:
+                fl = [float(("-" if n else "") + str(d[0]) + "." + "".join(map(str, d[1:])) + "E%+d" % e) for n, e, d in vals]
+                for i in range(len(fl) // mult):
+                    X[r0 + i, c] = complex(fl[2 * i], fl[2 * i + 1]) if m["cplx"] else fl[i]
+        mtype = (3 if m["cplx"] else 1) + (0 if case["single"] else 1)
+        out.append((m["name"].lower(), m["rows"], m["ncols"], m["form"], mtype, X))
+    return out
+
+
+def _text_mutations(rng, text):
+    """texts derived from a well-formed ASCII file that exercise what the reader rejects or defaults: a cut at a line
+    boundary, lower case, the announced format removed, an empty line, trailing blanks on the title lines"""
+    lines = text.split("\n")
+    out = []
+    if len(lines) > 3:
+        k = rng.randint(1, len(lines) - 2)
+        out.append(("cut", "\n".join(lines[:k]) + "\n"))
+        k = rng.randint(1, len(lines) - 2)
+        out.append(("cut-noeol", "\n".join(lines[:k])))
+        # an empty line where the reader expects a title line is taken for the end of the file
+        # (anywhere else it turns the rest of the file into garbage, which is not the point here)
+        import re as _re0
+        ks = [i for i, ln in enumerate(lines) if i > 0 and _re0.match(r"^[ \-0-9]{32}.{8}\S", ln)] + [len(lines) - 1]
+        k = rng.choice(ks)
+        out.append(("blank-line", "\n".join(lines[:k] + [""] + lines[k:])))
+    out.append(("lower", text.lower()))
+    import re as _re
+    titles = [ln for ln in lines if _re.match(r"^[ \-0-9]{32}.{8}\S", ln)]
+    if titles and all(_re.match(r"^(1P,)?5[ED]16\.\d+$", ln[40:].strip().upper()) for ln in titles):
+        # (only where the announced format *is* the default: cutting it elsewhere makes the file garbage)
+        out.append(("no-format", "\n".join(ln[:40] if ln in titles else ln for ln in lines)))
+    out.append(("title-blanks", "\n".join(ln + "   " if _re.match(r"^[ \-0-9]{32}.{8}\S", ln) else ln for ln in lines)))
+    # the row field of a *later* column header of a sparse layout is never evaluated by the reader
+    first, l2, hit = True, [], False
+    for ln in lines:
+        if _re.match(r"^[ \-0-9]{32}.{8}\S", ln):
+            first = True
+        elif _re.match(r"^[ 0-9]{8}       0[ 0-9]{8}$", ln):
+            if not first:
+                ln, hit = ln[:8] + "     abc" + ln[16:], True
+            first = False
+        l2.append(ln)
+    if hit:
+        out.append(("later-r-garbage", "\n".join(l2)))
+    return out
+
+
+def _ascii_loads(op4, p):
+    """what the real reader makes of the file: per read mode the canonical listing or 'error'; then dir"""
+    res = []
+    for flag in (False, True, None):
+        try:
+            with warnings.catch_warnings(), _TimeLimit(20):
+                warnings.simplefilter("ignore")
+                res.append(_canon_loaded(*op4.load(p, into="list", sparse=flag)))
+        except TimeoutError:
+            res.append("timeout")
+        except Exception:  # noqa: BLE001
+            res.append("error")
+    try:
+        with warnings.catch_warnings(), _TimeLimit(20):
+            warnings.simplefilter("ignore")
+            n_, s_, f_, t_ = op4.dir(p, verbose=False)
+        res.append([(a, int(b[0]), int(b[1]), int(c), int(d)) for a, b, c, d in zip(n_, s_, f_, t_)])
+    except TimeoutError:
+        res.append("timeout")
+    except Exception:  # noqa: BLE001
+        res.append("error")
+    return res
+
+
+def _model_listing(rep, parse):
+    if not rep.startswith("ok"):
+        return "error"
+    m = parse(rep)
+    if any(len(x) == 2 for x in m):
+        return "error"  # a put outside the matrix: IndexError / ValueError in the real reader
+    return m
+
+
+_FIELD_POOL = ["1.5E+00", "-2.50D-120", " 1.E5", ".5", "5.", ".", "", " ", "1e5", "1E+5 ", "+1.0E-05", "-0.000E+00", "1.0E", "1.0E+",
+               "1.0 E+00", "E+00", "1.0E+0x", "--1", "1.0E+00\n", "\n", " 12 ", "-7", "+3", "1_0", "0x10", "1.0E+400", "1.0E-400",
+               "9.999999999999999E+22", "4.9406564584124654E-324", "2.4703282292062327E-324", "2.4703282292062328E-324",
+               "1.7976931348623158E+308", "1.7976931348623159E+308", "0.000000000000000000000000001E+27", "00012", "1.5e+00", "\t1.0E+00\x0c"]
+
+
+def _rand_field(rng):
+    t = rng.random()
+    if t < 0.35:
+        return rng.choice(_FIELD_POOL)
+    if t < 0.8:
+        x = _rand_values(rng, 1, rng.choice(["bits", "normal", "special", "neg3"]))[0]
+        d = rng.randint(1, 17)
+        s = ("%" + "%d.%dE" % (d + 7, d)) % x
+        if rng.random() < 0.2:
+            s = s.replace("E", rng.choice(["e", "D", "E "]))
+        if rng.random() < 0.15:
+            i = rng.randrange(len(s) + 1)
+            s = s[:i] + rng.choice(" .-+E0\n") + s[i:]
+        return s
+    return "".join(rng.choice(" 0123456789.+-Ee") for _ in range(rng.randint(1, 12)))
+
 # ---------------------------------------------------------------------------------------------
 # correspondence
 
@@ -492,6 +759,184 @@ def _big_string_cases():
         out.append({"mats": [{"kind": "ndarray", "cplx": cplx, "D": D}], "names": ["big"], "forms": [2],
                     "opt": "nonbigmat", "endian": "<", "digits": 16})
     return out
+
+
+
+def _ascii_reader_streams(ctx, op4, drv, sc, ascii_texts):
+    """exact correspondence for the ASCII reader on inputs pyYeti's writer never produces"""
+    import io
+
+    rng = ctx.rng
+    # -- variant files from the format-only Lean encoder (Op4V.encAFile) ----------------------------------------
+    vcases = [_gen_vcase(rng) for _ in range(ctx.pick(350, 2500))]
+    texts = [bytes.fromhex(h).decode("latin1") for h in drv.ask([_vcase_tokens(c) for c in vcases])]
+    req, post = [], []
+    ntimeouts = 0
+
+    def add_file(stream, key, text, info):
+        nonlocal ntimeouts
+        p = sc.path()
+        with open(p, "w", newline="") as f:
+            f.write(text)
+        got = _ascii_loads(op4, p)
+        ntimeouts += got.count("timeout")
+        req.append("adec * " + text.encode("latin1").hex())
+        post.append((stream, key, got, info))
+
+    for c, text in zip(vcases, texts):
+        if ntimeouts >= 3:
+            break
+        add_file("avar", _vcase_tokens(c), text, c)
+    # -- mutated texts: what the reader rejects, and its defaults ------------------------------------------------
+    pool = list(ascii_texts) + [t for t in texts[: ctx.pick(80, 500)]]
+    for text in pool:
+        if ntimeouts >= 3:
+            break
+        for kind, t2 in _text_mutations(rng, text):
+            if len(t2) >= 16:
+                add_file("amut", (kind, t2), t2, kind)
+    # -- float(field), int(field) --------------------------------------------------------------------------------
+    flds = list(_FIELD_POOL) + [_rand_field(rng) for _ in range(ctx.pick(3000, 20000))]
+    for fld in flds:
+        try:
+            v = float(fld)
+            want = struct.unpack("<Q", struct.pack("<d", v))[0] if v == v and abs(v) != float("inf") or "n" not in fld.lower() else "outside"
+        except ValueError:
+            want = "ValueError"
+        if "_" in fld or "n" in fld.lower():
+            continue  # underscores / inf / nan: outside the model
+        req.append("afld " + (fld.encode("latin1").hex() or "-"))
+        post.append(("afld", fld, want, None))
+        ifld = fld
+        if rng.random() < 0.6:
+            ifld = rng.choice(["%d", "%8d", "%11d", "%-8d", "%+d", "%8d\n", " %d \n", "%d.", "- %d"]) % rng.choice(
+                [0, 1, -1, rng.randint(-99999999, 99999999), rng.randint(0, 1 << 40)])
+        try:
+            wi = str(int(ifld))
+        except ValueError:
+            wi = "ValueError"
+        req.append("aint " + (ifld.encode("latin1").hex() or "-"))
+        post.append(("aint", ifld, wi, None))
+    # -- the put functions on a block --------------------------------------------------------------------------------
+    for _ in range(ctx.pick(600, 4000)):
+        numlen = rng.choice([8, 12, 16, 23, 24])
+        cplx = rng.random() < 0.4
+        n = rng.randint(0, 7)
+        block = "".join((("%" + "%d.%dE" % (numlen, numlen - 7)) % x) for x in _rand_values(rng, n, rng.choice(["normal", "special", "bits+"])))
+        t = rng.random()
+        if t < 0.15:
+            block = block[: rng.randrange(len(block) + 1)]       # short block
+        elif t < 0.25:
+            block = block + "\n"
+        L = rng.choice([n, n, n, n + 1, max(n - 1, 0)])
+        X = ([], [], [])
+        try:
+            (op4.OP4._put_ascii_values_sparse_c if cplx else op4.OP4._put_ascii_values_sparse)(X, 2, 1, block, L, numlen)
+            if X[0] != list(range(2, 2 + (L // 2 if cplx else L))) or X[1] != [1] * len(X[0]):
+                want = "bad-index %r" % (X[:2],)
+            else:
+                want = " ".join(map(str, _bits(np.array(X[2], complex if cplx else float)))) if X[2] else ""
+        except ValueError:
+            want = "ValueError"
+        req.append("avals %d %d %d %s" % (cplx, numlen, L, block.encode("latin1").hex() or "-"))
+        post.append(("avals", (cplx, numlen, L, block), want, None))
+    # -- _get_ascii_block ----------------------------------------------------------------------------------------------
+    o = op4.OP4()
+    for _ in range(ctx.pick(600, 4000)):
+        numlen = rng.choice([3, 8, 16, 23])
+        perline = rng.randint(1, 5)
+        nl = rng.randint(0, 6)
+        lines = []
+        for i in range(nl):
+            k = perline if rng.random() < 0.7 else rng.randint(0, perline + 1)
+            lines.append("".join(rng.choice("0123456789.DE+- ") for _ in range(k * numlen)) + ("" if (i == nl - 1 and rng.random() < 0.3) else "\n"))
+        text = "".join(lines)
+        L = rng.randint(0, perline * nl + 2)
+        dformat = rng.random() < 0.5
+        o._fileh = io.StringIO(text, newline=None)
+        o._dformat = dformat
+        s_ = o._get_ascii_block(L, perline, perline * numlen)
+        used = text[: o._fileh.tell()].count("\n") + (1 if o._fileh.tell() == len(text) and text and not text.endswith("\n") else 0)
+        o._fileh = None
+        req.append("ablk %d %d %d %d %s" % (dformat, L, perline, numlen, text.encode("latin1").hex() or "-"))
+        post.append(("ablk", (dformat, L, perline, numlen, text), "%s- %d" % (s_.encode("latin1").hex(), used),
+                     {"dformat": dformat and "D" in text, "partial": L % perline != 0, "short": L > perline * nl}))
+
+    rep = drv.ask(req)
+    for (stream, key, impl, info), r in zip(post, rep):
+        ctx.case((stream, key), nontrivial=True, branch="stream:" + stream)
+        if stream in ("avar", "amut"):
+            parts = r.split(" ;; ")
+            model = ([_model_listing(x, _parse_dec) for x in parts[:3]] + [_model_listing(parts[3], _parse_dir)]) if len(parts) == 4 else r
+            if stream == "avar":
+                c = info
+                for m in c["mats"]:
+                    ctx.count("avar:" + {"d": "dense", "b": "bigmat", "n": "nonbigmat"}[m["lay"]])
+                    if m["cplx"]:
+                        ctx.count("avar:complex")
+                    if not m["cols"]:
+                        ctx.count("avar:all-zero-matrix")
+                    for _, strs in m["cols"]:
+                        mult = 2 if m["cplx"] else 1
+                        if any(a[0] + len(a[1]) // mult == b[0] for a, b in zip(strs, strs[1:])):
+                            ctx.count("avar:adjacent-strings")
+                        for _, vals in strs:
+                            for n_, e_, d_ in vals:
+                                if abs(e_) >= 100:
+                                    ctx.count("avar:3-digit-exponent")
+                                if e_ < -324 and any(d_):
+                                    ctx.count("avar:underflow-to-zero")
+                                if e_ > 309 and any(d_):
+                                    ctx.count("avar:overflow-to-inf")
+                ctx.count("avar:D-exponent" if c["useD"] else "avar:E-exponent")
+                ctx.count("avar:single" if c["single"] else "avar:double")
+                if c["lower"]:
+                    ctx.count("avar:lower-format")
+                if not c["lead1P"]:
+                    ctx.count("avar:no-1P")
+                if c["fmtD"]:
+                    ctx.count("avar:D-format")
+                if c["perline"] == 1:
+                    ctx.count("avar:perline-1")
+                inp = {"variant": c}
+            else:
+                ctx.count("amut:" + info)
+                ctx.count("amut:rejected" if impl[0] == "error" else "amut:accepted")
+                if info == "no-format" and impl[0] != "error":
+                    ctx.count("amut:defaults-used")
+                inp = {"text": key[1], "mutation": info}
+            if model != impl:
+                show = lambda v: (str(v)[:300] + "…") if len(str(v)) > 300 else v
+                ctx.disagree(stream, inp, show(impl), show(model))
+        elif stream == "afld":
+            if r == "ValueError":
+                model = r
+                ctx.count("afld:ValueError")
+            else:
+                model = int(r.split()[3])
+                ctx.count("afld:value")
+            if model != impl:
+                ctx.disagree("afld", {"field": key}, impl, r)
+        elif stream == "aint":
+            ctx.count("aint:ValueError" if r == "ValueError" else "aint:value")
+            if r != impl:
+                ctx.disagree("aint", {"field": key}, impl, r)
+        elif stream == "avals":
+            if r == "ValueError":
+                ctx.count("avals:ValueError")
+            if key[0]:
+                ctx.count("avals:complex")
+            if r != impl:
+                ctx.disagree("avals", {"cplx": key[0], "numlen": key[1], "L": key[2], "block": key[3]}, impl, r)
+        elif stream == "ablk":
+            if info["dformat"]:
+                ctx.count("ablk:dformat")
+            if info["partial"]:
+                ctx.count("ablk:partial-last-line")
+            if info["short"]:
+                ctx.count("ablk:short-file")
+            if r != impl:
+                ctx.disagree("ablk", {"dformat": key[0], "L": key[1], "perline": key[2], "numlen": key[3], "text": key[4]}, impl, r)
 
 
 def correspondence(ctx):
@@ -538,6 +983,8 @@ def correspondence(ctx):
             vstyle = rng.choice(["int", "normal", "bits", "special", "neg3", "normal", "bits+"])
             cases.append(_gen_file(rng, vstyle))
         cases += _big_string_cases()
+        cases += _digit_sweep_cases(rng)
+        ascii_texts = []
         ntimeouts = 0
         for case in cases:
             if ntimeouts >= 3:
@@ -592,6 +1039,14 @@ def correspondence(ctx):
                     impl = "exception:" + type(ex).__name__
                 req.append("asc %d %d %s" % (case["digits"], len(case["mats"]), spec))
                 post.append(("asc", case, impl))
+                if not impl.startswith("exception"):
+                    # the Lean ASCII reader on the text pyYeti wrote == what pyYeti reads from it
+                    got = _ascii_loads(op4, p)
+                    ntimeouts += got.count("timeout")
+                    req.append("adec * " + impl)
+                    post.append(("aread", case, got))
+                    if len(ascii_texts) < ctx.pick(60, 400) and rng.random() < 0.3:
+                        ascii_texts.append(bytes.fromhex(impl).decode("latin1"))
 
         rep = drv.ask(req)
         for (stream, inp, impl), r in zip(post, rep):
@@ -628,6 +1083,17 @@ def correspondence(ctx):
                                 ctx.count("read:%s-%s" % (stream, "sparse" if d_[5] else "dense"))
                 elif stream == "dir":
                     model = _parse_dir(r)
+                elif stream == "aread":
+                    parts = r.split(" ;; ")
+                    if len(parts) != 4:
+                        model = r
+                    else:
+                        model = [_model_listing(x, _parse_dec) for x in parts[:3]] + [_model_listing(parts[3], _parse_dir)]
+                        d_ = case["digits"]
+                        ctx.count("digits:" + ("default" if case.get("default_digits") else str(d_) if d_ <= 16 else ">16"))
+                        ctx.count("aread:" + case["opt"] + ("-complex" if any(m["cplx"] for m in case["mats"]) else "-real"))
+                        if model[0] == "error":
+                            ctx.count("aread:rejected")
                 else:
                     model = r
                 if model != impl:
@@ -636,6 +1102,7 @@ def correspondence(ctx):
                 elif stream == "enc" and len(ctx.samples) < 4 and impl != "struct_error":
                     ctx.sample({"names": case["names"], "opt": case["opt"], "endian": case["endian"],
                                 "shapes": [list(m["D"].shape) for m in case["mats"]], "bytes": len(impl) // 2})
+        _ascii_reader_streams(ctx, op4, drv, sc, ascii_texts)
         ctx.extra["first_disagreements"] = [
             {"stream": d["stream"], "impl": str(d["impl"])[:400], "model": str(d["model"])[:400],
              "input": {k: v for k, v in d["input"].items() if k != "mats"} if isinstance(d["input"], dict) else d["input"],
@@ -645,7 +1112,20 @@ def correspondence(ctx):
             ctx.require_branches(["stream:colstats", "stream:fmt", "stream:enc", "stream:dec-d", "stream:dec-s",
                               "stream:dec-a", "stream:dir", "stream:asc", "branch:struct_error",
                               "branch:fmt-overwide", "opt:auto", "opt:dense", "opt:bigmat", "opt:nonbigmat",
-                              "kind:sparse-complex", "kind:ndarray-real", "read:dec-a-sparse", "read:dec-a-dense"])
+                              "kind:sparse-complex", "kind:ndarray-real", "read:dec-a-sparse", "read:dec-a-dense",
+                              "stream:aread", "aread:rejected", "aread:dense-real", "aread:dense-complex",
+                              "aread:bigmat-real", "aread:bigmat-complex", "aread:nonbigmat-real",
+                              "aread:nonbigmat-complex", "digits:default", "digits:>16"]
+                             + ["digits:%d" % d for d in range(1, 17)]
+                             + ["stream:avar", "avar:dense", "avar:bigmat", "avar:nonbigmat", "avar:D-exponent",
+                                "avar:E-exponent", "avar:single", "avar:double", "avar:complex", "avar:lower-format",
+                                "avar:no-1P", "avar:D-format", "avar:3-digit-exponent", "avar:underflow-to-zero",
+                                "avar:overflow-to-inf", "avar:adjacent-strings", "avar:all-zero-matrix",
+                                "avar:perline-1", "stream:amut", "amut:cut", "amut:cut-noeol", "amut:blank-line",
+                                "amut:lower", "amut:no-format", "amut:title-blanks", "amut:later-r-garbage", "amut:defaults-used",
+                                "amut:rejected", "amut:accepted", "stream:afld", "afld:ValueError", "afld:value",
+                                "stream:aint", "aint:ValueError", "aint:value", "stream:avals", "avals:ValueError", "avals:complex",
+                                "stream:ablk", "ablk:dformat", "ablk:partial-last-line", "ablk:short-file"])
     finally:
         sc.close()
 
@@ -826,6 +1306,111 @@ def _check_roundtrip_(op4, sc, case, inputs, binary):
     return None
 
 
+
+# -- ASCII variant files: model-free -----------------------------------------------------------------------------
+
+
+def _py_encode_variant(case):
+    """the text of a variant file, written from the format description only (no Lean, no pyYeti)"""
+    w, p = case["width"], case["perline"]
+
+    def num(neg, exp, digits):
+        body = (("-" if neg else "") + str(digits[0]) + "." + "".join(map(str, digits[1:]))
+                + ("D" if case["useD"] else "E") + ("-" if exp < 0 else "+") + "%02d" % abs(exp))
+        return body.rjust(w)
+
+    def lines(vals):
+        out = ""
+        for i in range(0, len(vals), p):
+            out += "".join(num(*v) for v in vals[i : i + p]) + "\n"
+        return out
+
+    wper = 1 if case["single"] else 2
+    out = ""
+    for m in case["mats"]:
+        spec = ("1P," if case["lead1P"] else "") + "%d%s%d.%d" % (p, "D" if case["fmtD"] else "E", w, w - 7)
+        if case["lower"]:
+            spec = spec.lower()
+        mtype = (3 if m["cplx"] else 1) + (0 if case["single"] else 1)
+        out += "%8d%8d%8d%8d%-8s%s\n" % (m["ncols"], -m["rows"] if m["neg"] else m["rows"], m["form"], mtype, m["name"], spec)
+        for c, strs in m["cols"]:
+            if m["lay"] == "d":
+                r0, vals = strs[0]
+                out += "%8d%8d%8d\n" % (c + 1, r0 + 1, len(vals)) + lines(vals)
+            elif m["lay"] == "b":
+                out += "%8d%8d%8d\n" % (c + 1, 0, sum(len(v) * wper + 2 for _, v in strs))
+                for r0, vals in strs:
+                    out += "%8d%8d\n" % (len(vals) * wper + 1, r0 + 1) + lines(vals)
+            else:
+                out += "%8d%8d%8d\n" % (c + 1, 0, sum(len(v) * wper + 1 for _, v in strs))
+                for r0, vals in strs:
+                    out += "%12d\n" % ((r0 + 1) + ((len(vals) * wper + 1) << 16)) + lines(vals)
+        out += "%8d%8d%8d\n" % (m["ncols"] + 1, 1, 1) + num(0, 0, [1, 0, 0, 0, 0]) + "\n"
+    return out
+
+
+def _vcase_norm(case):
+    """(after a JSON round trip the tuples are lists)"""
+    c = dict(case)
+    c["mats"] = [dict(m, cols=[(cc, [(r0, [tuple([v[0], v[1], list(v[2])]) for v in vals]) for r0, vals in strs])
+                               for cc, strs in m["cols"]]) for m in case["mats"]]
+    return c
+
+
+def _check_variant(op4, sc, case):
+    """None, or (what, observed, required): pyYeti reads the file as the content it was generated from"""
+    case = _vcase_norm(case)
+    p = sc.path()
+    with open(p, "w", newline="") as f:
+        f.write(_py_encode_variant(case))
+    want = _vcase_expected(case)
+    for mode in (False, True, None):
+        try:
+            with warnings.catch_warnings(), _TimeLimit(60):
+                warnings.simplefilter("ignore")
+                rn, rm, rf, rt = op4.load(p, into="list", sparse=mode)
+        except Exception as e:  # noqa: BLE001
+            return ("read-raises", "%s: %s (sparse=%r)" % (type(e).__name__, e, mode), "the matrices of the file")
+        if rn != [w[0] for w in want]:
+            return ("names", rn, [w[0] for w in want])
+        for k, (w_, X) in enumerate(zip(want, rm)):
+            A = X.toarray() if sp.issparse(X) else np.asarray(X)
+            if A.shape != (w_[1], w_[2]):
+                return ("shape", list(A.shape), [w_[1], w_[2]])
+            if int(rf[k]) != w_[3] or int(rt[k]) != w_[4]:
+                return ("form-type", [int(rf[k]), int(rt[k])], [w_[3], w_[4]])
+            B = w_[5]
+            if not np.all(np.isfinite(B.view(np.float64) if np.iscomplexobj(B) else B)):
+                continue  # a value beyond the double range: outside "any finite double"
+            if not _same_bits(A, B):
+                bad = np.argwhere(A != B)
+                i, j = (int(bad[0][0]), int(bad[0][1])) if len(bad) else (-1, -1)
+                return ("values", {"matrix": k, "at": [i, j], "read": repr(A[i, j]) if i >= 0 else "?", "sparse": repr(mode)},
+                        {"in the file": repr(B[i, j]) if i >= 0 else "?"})
+    try:
+        dn, ds, df, dt = op4.dir(p, verbose=False)
+    except Exception as e:  # noqa: BLE001
+        return ("dir-raises", "%s: %s" % (type(e).__name__, e), "a listing")
+    got = [(a, int(b[0]), int(b[1]), int(c), int(d)) for a, b, c, d in zip(dn, ds, df, dt)]
+    if got != [w[:5] for w in want]:
+        return ("dir", got, [list(w[:5]) for w in want])
+    return None
+
+
+def _variant_family(case, what):
+    lays = "+".join(sorted({{"d": "dense", "b": "bigmat", "n": "nonbigmat"}[m["lay"]] for m in case["mats"]}))
+    return "op4-ascii-read-variant-%s-%s%s-%s" % (lays, "D" if case["useD"] else "E", "-single" if case["single"] else "", what)
+
+
+def _oracle_variant(ctx, op4, sc, case):
+    r = _check_variant(op4, sc, case)
+    ctx.count("oracle:ascii-variant")
+    if r is not None:
+        ctx.fail(_variant_family(case, r[0]), "ASCII variant file read by op4.load / op4.dir: %s" % r[0],
+                 {"variant": case}, r[1], r[2])
+        ctx.extra["unknown_failures"] = ctx.extra.get("unknown_failures", 0) + 1
+
+
 def _unrepresentable(case):
     """ASCII with fewer than 17 significant digits: a value that rounds past the largest double cannot be
     'read back to the requested digits' (it reads as inf) - outside the property's domain"""
@@ -956,6 +1541,9 @@ def search(ctx, hints):
             if isinstance(j, dict) and "mats" in j and seen < 25:
                 seen += 1
                 _oracle_case(ctx, op4, sc, _case_from_json(j), rng)
+            elif isinstance(j, dict) and isinstance(j.get("variant"), dict) and seen < 40:
+                seen += 1
+                _oracle_variant(ctx, op4, sc, j["variant"])
         # 2. corpus
         cp = os.path.join(ctx.verif, "corpus", "c04.json")
         if os.path.exists(cp):
@@ -982,6 +1570,11 @@ def search(ctx, hints):
                              {"x": x.tolist(), "dtype": str(x.dtype)}, got.tolist(), np.atleast_2d(x).astype(float).tolist())
             except Exception as e:  # noqa: BLE001
                 ctx.fail("op4-binary-coerced-input", "write/read raises", {"x": x.tolist(), "dtype": str(x.dtype)}, repr(e), "round trip")
+        # ASCII variant files (reader only)
+        for _ in range(ctx.pick(300, 2500)):
+            _oracle_variant(ctx, op4, sc, _gen_vcase(rng))
+            if ctx.extra.get("unknown_failures", 0) > 25:
+                break
         # 4. seeded random stream
         n = ctx.pick(1500, 12000)
         for i in range(n):
@@ -1001,6 +1594,15 @@ def replay(ctx, data):
     if not f:
         return None
     j = f["input"]
+    if isinstance(j.get("variant"), dict):
+        sc = _Scratch()
+        try:
+            r = _check_variant(op4, sc, j["variant"])
+            if r is None:
+                return None
+            return {"family": _variant_family(j["variant"], r[0]), "what": r[0], "input": j, "observed": r[1], "required": r[2]}
+        finally:
+            sc.close()
     if "mats" not in j:
         return None
     sc = _Scratch()
